@@ -252,6 +252,17 @@ class C15(PropCheck):
                             meta={'kind': 'fixed', 'id': 'extends-own-symbols-loses-sign' if v < 0 else
                                   'extends-empty-symbols-index-error', 'direct': [system, len(symbols), v]},
                             nontrivial=True, tags=['direct-dict'])
+        fid = 'target-counter-non-ident-style-crash'
+        meta = {'kind': 'fixed', 'id': fid}
+        for text in ('target-counter("#t", c, "x")', 'target-counter("#t", c, symbols(cyclic "a"))',
+                     'target-counter("#t", c, 3)', 'target-counters("#t", c, ".", "x")', 'target-counter("#t", c, X)',
+                     'target-counters(attr(href), Sec, "-", 1.5)'):
+            case = CF.cfn_case(text)
+            if case is not None:
+                sec.add(case[0], case[1], meta=meta, nontrivial=True, tags=[fid])
+        case = D.dom_case(corpus_html(fid))
+        if case is not None:
+            sec.add(case['line'], case['impl'], meta=meta, nontrivial=True, tags=[fid, 'dom'])
         fid = 'target-counter-pages-forward-crash'
         html = corpus_html(fid)
         pages_rec = P.PageRecorder()
@@ -905,7 +916,6 @@ class C15(PropCheck):
             'counter-set-before-increment': finding_set_before_increment,
             'li-value-nests-scope': finding_li_value_nests,
             'ol-start-not-integer': finding_ol_start_not_integer,
-            'target-counter-non-ident-style-crash': finding_target_counter_style_crash,
             'target-text-open-target-empty': finding_open_target_text,
         }
 
@@ -970,11 +980,22 @@ def fixed_forward_pages():
     return None if printed == want else f'the link prints {printed!r}, the page count is {want}'
 
 
+def fixed_target_counter_style():
+    """Repaired by 9677ed2 (target-counter(#t, c, "x"): the style None failed render_value's assert)."""
+    html, context, counter_style = D.build(corpus_html('target-counter-non-ident-style-crash'))
+    try:
+        texts = D.impl_texts(html, context, counter_style)
+    except AssertionError as exc:
+        return f'AssertionError: {exc}'
+    return None if texts == [] else f'the dropped declaration still generates {texts}'
+
+
 FIXED_REPLAYS = {
     'range-auto-crash': fixed_range_auto,
     'extends-own-symbols-loses-sign': fixed_extends_sign,
     'extends-empty-symbols-index-error': fixed_extends_empty_symbols,
     'target-counter-pages-forward-crash': fixed_forward_pages,
+    'target-counter-non-ident-style-crash': fixed_target_counter_style,
 }
 
 
@@ -1007,16 +1028,6 @@ def finding_li_value_nests():
 def finding_ol_start_not_integer():
     """<ol start="1.5"> / <ol start="abc"> number from 0: the raw attribute is pasted into the declaration."""
     return [t for _, t in generated_texts_of('ol-start-not-integer')] == ['0. ', '1. ', '0. ']
-
-
-def finding_target_counter_style_crash():
-    """target-counter(#t, c, "x"): get_target keeps get_keyword(token) = None as the style -> AssertionError."""
-    html, context, counter_style = D.build(corpus_html('target-counter-non-ident-style-crash'))
-    try:
-        D.impl_texts(html, context, counter_style)
-    except AssertionError:
-        return True
-    return False
 
 
 def finding_open_target_text():
@@ -1055,6 +1066,8 @@ MANIFEST = {
             'the counter name of every counter function is the identifier as written (never case-folded); '
             'update_counters agrees with the css-lists-3 order on every counter an element does not both set and '
             'increment; cache_target_page_counters re-parses a box with its own page counters; '
+            'an accepted target-counter() always names a counter style; the items after <li value=v> count v+1, v+2, … '
+            'whatever nested lists the item holds; '
             '<ol start=s> makes its items count s, s+1, … for every integer s (0 and negatives included) and <li '
             'value=v> prints v; the stack machine '
             'of update_counters / element_to_box produces exactly the texts of a reference semantics (frames) for '
@@ -1068,7 +1081,7 @@ MANIFEST = {
             'the abstract inputs. Findings kept as witnesses + corpus/C15: update_counters applies counter-set before '
             'counter-increment (css-lists-3 orders increment, then set); <li value> is hinted as counter-reset and '
             'nests a list-item scope inside a flat list; <ol start> / <li value> that are not CSS integers (1.5, abc) '
-            'number from 0; target-counter(…, "x") (a non-identifier style) fails an assert while boxes are built; '
+            'number from 0; '
             'target-text() of the element itself or an ancestor prints nothing; a real document '
             'oscillates past max_loops=8 '
             '(Witness.C15.oscillation: reaching the page fix point is not provable). The link from the local flag '
